@@ -9,7 +9,7 @@
 (* a two-operand application aliases the reused argument buffer):          *)
 (* LateReaderFaithful then fails, which is finding F-C12-1.                *)
 (***************************************************************************)
-EXTENDS Machine
+EXTENDS Machine, Json
 
 CONSTANTS Big, Copied
 
@@ -75,4 +75,6 @@ LoopMonotone == s.st = "cfg" \/ \A i \in 1..(Len(s.out) - 1) : \A j \in (i + 1).
 \* each LOOP event announces the real node that follows it
 LoopAnnounces == s.st = "cfg" \/ \A i \in 1..Len(s.out) : s.out[i].k = "loop" =>
                    (s.out[i].pos \in 1..Len(L.nodes) /\ L.nodes[s.out[i].pos].ty # "ev")
+\* every tree of the bounded set is printed once, for replay against the real code
+EmitTrees == (s.st = "cfg") => PrintT("CASE " \o ToJson(tree))
 =============================================================================
